@@ -161,8 +161,11 @@ Definition cbcr_read (st : cbcr) (n : N) : res (cbcr * bytes) :=
 End CBC.
 
 (* ---- the toy block cipher shared with harness/src/bin/stream.rs ---------------------------
-   E_k(b) = (b rotated left by one byte) xor k[0..16],  D_k its inverse                        *)
+   E_k(b) = (b rotated left by one byte) xor k[0..16],  D_k its inverse.
+   (Keys are 32 bytes wherever the cipher is run, key_iv_ok; padding a shorter key with zeros
+   only makes the functions total, so that D_k (E_k b) = b holds for every k.)                  *)
 Definition rotl1 (l : bytes) : bytes := match l with [] => [] | x :: r => r ++ [x] end.
 Definition rotr1 (l : bytes) : bytes := match l with [] => [] | _ => last l x00 :: removelast l end.
-Definition toy_E (k b : bytes) : bytes := xor_bytes (rotl1 b) (firstn 16 k).
-Definition toy_D (k c : bytes) : bytes := rotr1 (xor_bytes c (firstn 16 k)).
+Definition toy_key (k : bytes) : bytes := firstn 16 (k ++ repeat x00 16).
+Definition toy_E (k b : bytes) : bytes := xor_bytes (rotl1 b) (toy_key k).
+Definition toy_D (k c : bytes) : bytes := rotr1 (xor_bytes c (toy_key k)).
